@@ -1,9 +1,9 @@
 (* C09 about the EMITTED TEXT: the bytes [problem_display p] (model of `impl Display for Problem`)
    are read by the specification reader [read_problem] (Model/TffText.v) as exactly [emit p]. *)
 From Coq Require Import List Ascii String ZArith NArith Bool Lia Permutation.
-From Anthem Require Import Base.ISet Base.Fresh Syntax.Fol Syntax.Tff Sem.TffSem Sem.TffWt
+From Anthem Require Import Base.ISet Base.Fresh Syntax.Fol Syntax.Tff Sem.Domain Sem.Sat Sem.TffSem Sem.TffWt
   Model.Problem Model.TptpPrint Model.ProblemPrint Model.TffText Gen.Preamble
-  Proofs.TptpRead Proofs.ChainOk Proofs.PipelineOk Proofs.ProblemWt Proofs.LexOk Proofs.ProblemCtx.
+  Proofs.TptpSem Proofs.TptpRead Proofs.ChainOk Proofs.PipelineOk Proofs.ProblemWt Proofs.LexOk Proofs.ProblemCtx.
 Import ListNotations.
 Open Scope string_scope.
 Open Scope list_scope.
@@ -492,4 +492,55 @@ Proof.
   exists txt, (emit pb). split; [exact E|]. split.
   - apply (pipeline_display_reads_as_emit raw d pb txt); assumption.
   - apply (pipeline_wt raw d pb); assumption.
+Qed.
+
+(* ---------- statement forms used by Properties/C09.v and C06.v ---------- *)
+Lemma not_class_ok pb : ~ (ident_ok pb = false) -> ident_ok pb = true.
+Proof. destruct (ident_ok pb); [reflexivity|congruence]. Qed.
+Theorem display_reads_as_emit_open pb txt : ~ (ident_ok pb = false) ->
+  (forall a, In a (pb_formulas pb) -> wf_lex (pf_formula a) = true) ->
+  problem_display pb = Some txt -> read_problem txt = Some (emit pb).
+Proof. intros Hid Hlex. apply display_reads_as_emit_lex; [apply not_class_ok, Hid|exact Hlex]. Qed.
+Theorem premises_give_wf_lex pb a : ~ (ident_ok pb = false) -> In a (pb_formulas pb) ->
+  closed_formula (pf_formula a) = true -> cmps_nonempty (pf_formula a) = true -> wf_lex (pf_formula a) = true.
+Proof. intros Hid. apply ctx_wf_lex, not_class_ok, Hid. Qed.
+
+Theorem wf_tptp_split F : wf_tptp F = true -> wf_lex F = true /\ names_in [] F = true.
+Proof. intros H. split; [apply wf_tptp_lex, H|apply TptpSem.wf_tptp_names, H]. Qed.
+Theorem c06_in_problem pb a : ident_ok pb = true -> In a (pb_formulas pb) -> wf_lex (pf_formula a) = true ->
+  exists g : tff_formula, tff_read (print_formula (pf_formula a)) = Some g /\
+    forall (FI : Sat.fint) (M : Sat.pint) (e : Sat.env),
+      tff_sat (tstruct_in (csig_of_decls (tp_decls (emit pb))) FI M) (tenv_of e) g <-> Sat.csat FI M e (pf_formula a).
+Proof.
+  intros Hok Hin Hlex. exists (tff_of_formula (pf_formula a)). split.
+  - apply tff_read_print_lex, Hlex.
+  - intros FI M e. apply in_problem_meaning; [exact Hok|exact Hin|apply TptpSem.env_rel_of].
+Qed.
+Theorem c06_in_pipeline raw d pb a :
+  (forall b, In b (pb_formulas raw) -> closed_formula (pf_formula b) = true) ->
+  (forall b, In b (pb_formulas raw) -> cmps_nonempty (pf_formula b) = true) ->
+  In pb (pipeline raw d) -> ident_ok pb = true -> In a (pb_formulas pb) ->
+  exists g : tff_formula, tff_read (print_formula (pf_formula a)) = Some g /\
+    forall (FI : Sat.fint) (M : Sat.pint) (e : Sat.env),
+      tff_sat (tstruct_in (csig_of_decls (tp_decls (emit pb))) FI M) (tenv_of e) g <-> Sat.csat FI M e (pf_formula a).
+Proof.
+  intros Hc Hn Hin Hok Ha. apply c06_in_problem; [exact Hok|exact Ha|].
+  apply (ctx_wf_lex pb Hok a Ha).
+  - apply (pipeline_closed raw d pb Hc Hin), Ha.
+  - apply (pipeline_cmps raw d pb Hn Hin), Ha.
+Qed.
+Theorem c06_text pb txt tp : ident_ok pb = true ->
+  (forall a, In a (pb_formulas pb) -> wf_lex (pf_formula a) = true) ->
+  problem_display pb = Some txt -> read_problem txt = Some tp ->
+  forall a, In a (pb_formulas pb) ->
+  exists nf : tff_named, In nf (tp_formulas tp) /\ n_name nf = pf_name a /\ n_role nf = tff_role_of (pf_role a) /\
+    forall (FI : Sat.fint) (M : Sat.pint) (e : Sat.env),
+      tff_sat (tstruct_in (csig_of_decls (tp_decls tp)) FI M) (tenv_of e) (n_formula nf) <-> Sat.csat FI M e (pf_formula a).
+Proof.
+  intros Hok Hlex Hd Hr a Ha.
+  rewrite (display_reads_as_emit_lex pb Hok Hlex txt Hd) in Hr. injection Hr as <-.
+  exists (mknamed (pf_name a) (tff_role_of (pf_role a)) (tff_of_formula (pf_formula a))).
+  split; [|split; [reflexivity|split; [reflexivity|]]].
+  - unfold emit. cbn [tp_formulas]. rewrite !in_app_iff. right; right. apply in_map_iff. exists a; auto.
+  - intros FI M e. cbn [n_formula]. apply in_problem_meaning; [exact Hok|exact Ha|apply TptpSem.env_rel_of].
 Qed.
